@@ -13,6 +13,8 @@ pub mod c09;
 pub mod c10;
 pub mod c11;
 pub mod c12;
+pub mod c13;
+pub mod c14;
 pub mod c16;
 pub mod c17;
 
@@ -112,6 +114,22 @@ pub fn registry() -> Vec<Entry> {
             150_000,
             "arbitrary programs (loops, irreducible flow via cross-region jumps, recursion, many exits and returns) x a random sequence (length 0-6) of extra pass runs drawn from {value analysis, ecall termination, liveness}. Snapshot (edges by index, value/memory facts, liveness, u_def, function annotations, diagnostics) after the standard pipeline must equal the snapshot after the extra sequence and the snapshot of a second, fresh analysis; hook counters bound the sweeps: value analysis <= 4*(4+2n) over its four runs, liveness <= 4+2n. Non-trivial = loop, several returns or exit inside a function, and >= 8 nodes.",
             &["sweep counters come from the guarded hook commit", "bounds were calibrated on the repaired tree with 2x headroom (maxima are reported in the evidence)"],
+        ),
+        entry::<c13::C13>(
+            "C13",
+            1500,
+            3000,
+            150_000,
+            "base programs from four sources (clean; clean with one injected violation; arbitrary control flow with optional CFG faults; syntactic with every statement form) rendered twice: canonically, and with the official expansion substituted for a random subset of pseudo-instructions (23 rules with operand index maps) plus every surface freedom applied per site (spacing, tabs, separators, comments, blank lines, mnemonic case, register spelling, immediate radix / character literal, inline labels, omitted zero offsets). The multisets of (diagnostic code, statement, operand) located through each rendering's own source map must be equal. Non-trivial = the base has a diagnostic or >= 3 sites were rewritten.",
+            &["a diagnostic on an operand that exists only in the expansion (the inserted x0) is mapped to the instruction", "csr pseudo forms are not rewritten (RARS operand order)"],
+        ),
+        entry::<c14::C14>(
+            "C14",
+            1500,
+            3000,
+            150_000,
+            "the same four program sources x a random permutation of t0-t6 among themselves and of s0-s11 among themselves x an injective renaming of a random subset of labels to fresh identifiers (upper case, leading underscore, dots, digits): the diagnostics (code, statement, operand) must be unchanged and the registers they designate must be the images under the permutation. Non-trivial = the base has a diagnostic and a register moved, or >= 3 labels renamed.",
+            &["error titles that list label names are compared by code and location, not by text"],
         ),
         entry::<c16::C16>(
             "C16",
